@@ -24,6 +24,7 @@ package main
 import (
 	"fmt"
 	"math"
+	"strings"
 	"sync"
 
 	"github.com/unixpickle/model3d/model3d"
@@ -414,22 +415,81 @@ func transformStage(r *ev.Run) {
 		wrap    func(render3d.Object) render3d.Object
 		apply   func(c3) c3
 		linear  func(c3) c3
+		normal  func(c3) c3 // how surface normals are carried along (inverse transpose of the linear part), up to length
 		normals bool
 	}
-	rot := model3d.NewMatrix3Rotation(model3d.XYZ(1, 2, -1).Normalize(), 1.1)
+	axis1, axis2 := model3d.XYZ(1, 2, -1).Normalize(), model3d.XYZ(-2, 0.5, 1).Normalize()
+	rot1 := model3d.NewMatrix3Rotation(axis1, 1.1)
+	rot2 := model3d.NewMatrix3Rotation(axis2, -0.7)
 	gen := &model3d.Matrix3{2, 0.3, -0.1, -0.4, 1.5, 0.2, 0.1, 0.7, -1.2}
-	xfs := []xf{
-		{"Translate(1,-2,0.5)", func(o render3d.Object) render3d.Object { return render3d.Translate(o, model3d.XYZ(1, -2, 0.5)) }, func(c c3) c3 { return c.Add(model3d.XYZ(1, -2, 0.5)) }, func(c c3) c3 { return c }, true},
-		{"Rotate(axis,1.1)", func(o render3d.Object) render3d.Object {
-			return render3d.Rotate(o, model3d.XYZ(1, 2, -1).Normalize(), 1.1)
-		}, rot.MulColumn, rot.MulColumn, true},
-		{"Scale(2.5)", func(o render3d.Object) render3d.Object { return render3d.Scale(o, 2.5) }, func(c c3) c3 { return c.Scale(2.5) }, func(c c3) c3 { return c.Scale(2.5) }, true},
-		{"Scale(0.2)", func(o render3d.Object) render3d.Object { return render3d.Scale(o, 0.2) }, func(c c3) c3 { return c.Scale(0.2) }, func(c c3) c3 { return c.Scale(0.2) }, true},
-		{"MatrixMultiply(general)", func(o render3d.Object) render3d.Object { return render3d.MatrixMultiply(o, gen) }, gen.MulColumn, gen.MulColumn, false},
-		{"Translate(Rotate(Scale))", func(o render3d.Object) render3d.Object {
-			return render3d.Translate(render3d.Rotate(render3d.Scale(o, 0.5), model3d.XYZ(1, 2, -1).Normalize(), 1.1), model3d.XYZ(0, 3, 0))
-		}, func(c c3) c3 { return rot.MulColumn(c.Scale(0.5)).Add(model3d.XYZ(0, 3, 0)) }, func(c c3) c3 { return rot.MulColumn(c.Scale(0.5)) }, true},
+	dia := &model3d.Matrix3{1.5, 0, 0, 0, 0.5, 0, 0, 0, -2}
+	id := func(c c3) c3 { return c }
+	mat := func(name string, m *model3d.Matrix3) xf {
+		it := m.Inverse().Transpose()
+		// normals of non-similarity maps are not part of the statement ("hit exactly where the transformed original
+		// is"); the library carries them with M instead of M^-T, which is noted in DESIGN.md and not judged here
+		return xf{name, func(o render3d.Object) render3d.Object { return render3d.MatrixMultiply(o, m) }, m.MulColumn, m.MulColumn, it.MulColumn, false}
 	}
+	atoms := []xf{
+		{"Translate(1,-2,0.5)", func(o render3d.Object) render3d.Object { return render3d.Translate(o, model3d.XYZ(1, -2, 0.5)) }, func(c c3) c3 { return c.Add(model3d.XYZ(1, -2, 0.5)) }, id, id, true},
+		{"Rotate(axis1,1.1)", func(o render3d.Object) render3d.Object { return render3d.Rotate(o, axis1, 1.1) }, rot1.MulColumn, rot1.MulColumn, rot1.MulColumn, true},
+		{"Rotate(axis2,-0.7)", func(o render3d.Object) render3d.Object { return render3d.Rotate(o, axis2, -0.7) }, rot2.MulColumn, rot2.MulColumn, rot2.MulColumn, true},
+		{"Scale(2.5)", func(o render3d.Object) render3d.Object { return render3d.Scale(o, 2.5) }, func(c c3) c3 { return c.Scale(2.5) }, func(c c3) c3 { return c.Scale(2.5) }, id, true},
+		{"Scale(0.2)", func(o render3d.Object) render3d.Object { return render3d.Scale(o, 0.2) }, func(c c3) c3 { return c.Scale(0.2) }, func(c c3) c3 { return c.Scale(0.2) }, id, true},
+		mat("MatrixMultiply(general)", gen),
+		mat("MatrixMultiply(diag(1.5,0.5,-2))", dia),
+	}
+	// every sequence of up to two (thorough: three) wrappers stacked directly on each other; the last one is outermost
+	maxLen := 2
+	if r.Thorough() {
+		maxLen = 3
+	}
+	var xfs []xf
+	var rec func(cur []xf)
+	rec = func(cur []xf) {
+		if len(cur) > 0 {
+			seq := append([]xf{}, cur...)
+			var names []string
+			similar := true
+			for _, t := range seq {
+				names = append(names, t.name)
+				similar = similar && t.normals
+			}
+			xfs = append(xfs, xf{strings.Join(names, " then "),
+				func(o render3d.Object) render3d.Object {
+					for _, t := range seq {
+						o = t.wrap(o)
+					}
+					return o
+				},
+				func(c c3) c3 {
+					for _, t := range seq {
+						c = t.apply(c)
+					}
+					return c
+				},
+				func(c c3) c3 {
+					for _, t := range seq {
+						c = t.linear(c)
+					}
+					return c
+				},
+				func(c c3) c3 {
+					for _, t := range seq {
+						c = t.normal(c)
+					}
+					return c
+				}, similar})
+		}
+		if len(cur) == maxLen {
+			return
+		}
+		for _, t := range atoms {
+			rec(append(cur, t))
+		}
+	}
+	rec(nil)
+	r.Set("transform_sequences", len(xfs))
 	var dirs []c3
 	for x := -1; x <= 1; x++ {
 		for y := -1; y <= 1; y++ {
@@ -470,7 +530,7 @@ func transformStage(r *ev.Run) {
 								r.Violation("transformed-object/normal-unit", fmt.Sprintf("%s: normal %v is not a unit vector", t.name, rc1.Normal), nc)
 							}
 							if t.normals {
-								if want := t.linear(rc0.Normal).Normalize(); rc1.Normal.Dist(want) > 1e-9 {
+								if want := t.normal(rc0.Normal).Normalize(); rc1.Normal.Dist(want) > 1e-7 {
 									r.Violation("transformed-object/normal", fmt.Sprintf("%s: normal %v, the transformed original normal is %v", t.name, rc1.Normal, want), nc)
 								}
 							}
